@@ -27,6 +27,74 @@ def needMat (fs : List (String × String)) (k : String) (n m : Nat) : E (Array (
   | some a => if rect a n m then pure a else throw s!"matrix {k} is not {n}x{m} (rows {a.size})"
   | none => throw s!"bad matrix {k}"
 
+/-! ### inputs of the model: no silent precision loss
+
+`Fix` has the ABSOLUTE resolution 2⁻¹⁹²; the contract / comparison tolerances are RELATIVE (2⁻³⁰ of the largest
+magnitude).  Callback matrices whose result is scale invariant (`kern`) are therefore normalised by an exact power of two
+so that the largest magnitude is ≈ 1 before they become `Fix` values (`needMatNorm`, the dependent oracle values are
+mapped along exactly), an entry that would lose bits below 2⁻¹⁹² is refused (`SKIP:precision`, counted), and the inputs that
+are not normalised are refused when their magnitude leaves fewer than 96 bits above the resolution (`needInput`). -/
+
+/-- a double as `(m, e)` = `m·2^e` (`m:e` or a plain integer) -/
+def parseDy (s : String) : Option (Int × Int) :=
+  match s.splitOn ":" with
+  | [m, e] =>
+    match m.toInt?, e.toInt? with
+    | some m, some e => some (m, e)
+    | _, _ => none
+  | [a] => a.toInt?.map fun m => (m, 0)
+  | _ => none
+
+/-- `m·2^(e+sh)` exactly; `none` when bits would fall below 2⁻¹⁹² -/
+def dyToFixExact (sh : Int) (d : Int × Int) : Option Fix :=
+  let t := d.2 + sh + (Fix.S : Int)
+  if 0 ≤ t then some ⟨d.1 * pow2 t.toNat⟩
+  else
+    let k := (-t).toNat
+    if d.1 % pow2 k = 0 then some ⟨d.1 >>> k⟩ else none
+
+/-- `m·2^(e+sh)` floored at 2⁻¹⁹² (oracle values, implementation outputs) -/
+def dyToFixFloor (sh : Int) (d : Int × Int) : Fix :=
+  let t := d.2 + sh + (Fix.S : Int)
+  if 0 ≤ t then ⟨d.1 * pow2 t.toNat⟩ else ⟨d.1 >>> (-t).toNat⟩
+
+/-- smallest `c` with `|m·2^e| < 2^c` (0 for the value 0) -/
+def dyMagnitude (d : Int × Int) : Option Int :=
+  if d.1 = 0 then none else some ((Nat.log2 d.1.natAbs : Int) + 1 + d.2)
+
+/-- a scale-invariant callback matrix, divided by the exact power of two `2^c` that brings its largest magnitude into
+    `[1/2, 1)`; returns the normalised matrix and `c` -/
+def needMatNorm (fs : List (String × String)) (k : String) (n m : Nat) : E (Array (Array Fix) × Int) := do
+  match parseRows parseDy (← need fs k) with
+  | none => throw s!"bad matrix {k}"
+  | some a =>
+    if !(rect a n m) then throw s!"matrix {k} is not {n}x{m} (rows {a.size})"
+    let c : Int := a.foldl (fun acc r => r.foldl (fun acc d => match dyMagnitude d with
+      | some g => if acc.isNone || acc.getD 0 < g then some g else acc
+      | none => acc) acc) (none : Option Int) |>.getD 0
+    let mut out : Array (Array Fix) := #[]
+    for r in a do
+      let mut row : Array Fix := #[]
+      for d in r do
+        match dyToFixExact (-c) d with
+        | some x => row := row.push x
+        | none => throw s!"SKIP:precision (an entry of {k} has bits below 2^-192 after normalisation by 2^{c})"
+      out := out.push row
+    pure (out, c)
+
+/-- an oracle vector that scales with `2^sh` relative to the normalised callback matrix (floored) -/
+def parseVecScaled (sh : Int) (s : String) : Option (Array Fix) :=
+  if s == "-" then some #[] else
+  (allSome ((splitNonEmpty s ",").map parseDy)).map fun l => (l.map (dyToFixFloor sh)).toArray
+
+/-- an input that is NOT normalised: refused when its magnitude leaves fewer than 96 bits above the resolution -/
+def needInput (fs : List (String × String)) (k : String) (n m : Nat) : E (Array (Array Fix)) := do
+  let a ← needMat fs k n m
+  let mx := maxAbsArr a
+  if mx.m ≠ 0 && mx < tolPow 96 then
+    throw s!"SKIP:precision (input {k} has magnitude below 2^-96: fewer than 96 significant bits at the model's resolution)"
+  pure a
+
 /-- per-sample objects separated by `|` -/
 def needSamples {α} (fs : List (String × String)) (k : String) (n : Nat) (p : String → Option α) : E (Array α) := do
   let parts := (← need fs k).splitOn "|"
